@@ -400,7 +400,8 @@ theorem transfer_sim (m : OvMode) (s : Transfer.State) (o : Transfer.Op) (op : O
   | cancel r =>
     cases hop
     have hp : s.poisoned = false := hok
-    cases hc : s.cancelled <;> simp [Transfer.step, hp, applyOp, absT, hc]
+    have hw : Gen.transferFacts.cancelFirstWins = true := by decide
+    cases hc : s.cancelled <;> simp [Transfer.step, hp, applyOp, absT, hc, hw]
   | advance f =>
     cases hop
     have hp : s.poisoned = false := hok
